@@ -235,11 +235,11 @@ class Model():
             )
 
         # First remove all of the associations. An asset that is present in
-        # both fields of an association lists it twice, so skip the
-        # associations that were already removed.
-        for association in list(asset.associations):
-            if association in self.associations:
-                self.remove_asset_from_association(asset, association)
+        # both fields of an association lists it twice, but one call removes
+        # it from both fields, so always continue with what is still listed.
+        while asset.associations:
+            self.remove_asset_from_association(
+                asset, asset.associations[0])
 
         # Also remove all of the entry points
         for attacker in self.attackers:
